@@ -296,6 +296,30 @@ func oracleC01(x *Exec, so *StepObs) {
 					okPlusOne = true
 					x.Sim.Probe("pruning-kept-deployed(N+1)")
 				}
+				if !okPlusOne && x.Backend.Kind == "memory" {
+					// the memory driver hands out its stored objects: an operation that failed before writing may have
+					// changed a stored release's status in place, while the driver's label index still says "deployed",
+					// and pruning then protects that revision. Recognised by a status nobody ever wrote to the driver.
+					written := map[string]string{}
+					for _, prev := range x.Steps {
+						if prev == so {
+							break
+						}
+						for _, pr := range prev.Results {
+							for _, c := range pr.StoreLog {
+								if c.Applied && (c.Op == "create" || c.Op == "update") {
+									written[c.Key] = c.Status
+								}
+							}
+						}
+					}
+					for _, lr := range before.Ledger {
+						k := fmt.Sprintf("sh.helm.release.v1.%s.v%d", x.Plan.Release, lr.Rev)
+						if w, ok := written[k]; ok && w != lr.Status {
+							cause = "memory-driver-status-label-stale"
+						}
+					}
+				}
 				if !okPlusOne {
 					x.Violate(Violation{P, "I6c-at-most-N", opName, cause, fmt.Sprintf("%d revisions remain with limit %d: %s -> %s", n, op.MaxHistory, before.Summary(), after.Summary()), so.Index})
 					return
